@@ -62,7 +62,8 @@ static void life_cycle(const char* tag, int libc_clock) {
     ++g_checks;
     if (libc_clock) {
         /* birthday B of a seed created between `before` and `after` (kernel clock): B <= after and before < B + STEP */
-        if (before >= EPOCH && after < EPOCH + 1024 * STEP && !(b <= after && before < b + STEP)) vio("static-host/birthday-not-from-the-c-library-clock", tag, b, before);
+        /* two seconds of slack: time() may read a coarser clock than the system call */
+        if (before >= EPOCH && after < EPOCH + 1024 * STEP && !(b <= after + 2 && before < b + STEP + 2)) vio("static-host/birthday-not-from-the-c-library-clock", tag, b, before);
     } else {
         uint64_t want = (g_clock < EPOCH || g_clock == (uint64_t)-1) ? EPOCH : EPOCH + (g_clock - EPOCH) / STEP % 1024 * STEP;
         if (b != want) vio("static-host/birthday-not-from-the-injected-clock", tag, b, want);
